@@ -164,7 +164,7 @@ class Closed:
                 if isinstance(tgt.elts[0], ast.Name):
                     st[tgt.elts[0].id] = ('elem', C) if mt in (KEYSC, 'EMPTYMAP') else U
             elif isinstance(tgt, ast.Name):
-                st[tgt.id] = ('elem', it)
+                st[tgt.id] = C if it == LISTC else ('elem', it)
             return
         if isinstance(s, ast.AnnAssign) and node.kind == 'stmt' and s.value is not None:
             s = ast.Assign(targets=[s.target], value=s.value)
@@ -180,6 +180,10 @@ class Closed:
                         st[tg.id] = LISTC if ts and all(x == C for x in ts) else ('EMPTYLIST' if not ts else U)
                     elif isinstance(s.value, ast.ListComp) and self._is_fback(s.value, st):
                         st[tg.id] = FBACK
+                    elif isinstance(s.value, ast.ListComp) and len(s.value.generators) == 1 and self.tag(s.value.elt, self._comp_env(s.value, st)) == C:
+                        st[tg.id] = LISTC
+                    elif isinstance(s.value, ast.DictComp) and len(s.value.generators) == 1 and self.tag(s.value.value, self._comp_env(s.value, st)) == C:
+                        st[tg.id] = MAPC
                     else:
                         st[tg.id] = t
                 elif isinstance(tg, ast.Tuple) and isinstance(t, tuple) and t[0] == 'tuple':
@@ -214,6 +218,10 @@ class Closed:
             return
         if isinstance(s, ast.Expr) and isinstance(s.value, ast.Call) and isinstance(s.value.func, ast.Attribute) and isinstance(s.value.func.value, ast.Name):
             m = s.value.func.value.id
+            if s.value.func.attr == 'update' and s.value.args and st.get(m, U) in (C, R):
+                a, b = st.get(m, U), self.tag(s.value.args[0], st)
+                st[m] = C if a == C and b == C else (R if R in (a, b) else U)
+                return
             if s.value.func.attr == 'append' and s.value.args:
                 t = self.tag(s.value.args[0], st)
                 cur = st.get(m, U)
